@@ -15,8 +15,8 @@ TOLF = 16 * EPS32
 MAXBITS = int(np.array(1e4, dtype=np.float32).view(np.uint32))       # bit pattern of 1e4f
 ALPHA = 1.6732632423543772848170429916717
 SCALE = 1.0507009873554804934193349852946
-GRID = sorted(set([0.0] + [s * v for s in (1, -1) for v in (1e-3, 0.5, 1, 5, 10, 16, 17, 20, 27, 28, 40, 80, 87, 88, 89, 100, 104,
-                                                            500, 709, 710, 745, 1e3, 5e3, 1e4)]))
+GRID = sorted(set([0.0] + [s * v for s in (1, -1) for v in (1e-3, 0.5, 1, 5, 10, 16, 17, 20, 27, 28, 40, 80, 87, 88, 88.5, 89, 100, 104,
+                                                            500, 709, 709.5, 710, 745, 1e3, 5e3, 1e4)]))
 THRESH = [0.0, 9.0109, 16.6355, 17.3287, 36.7368, 87.3365, 88.72284, 103.2789, 103.9721, 709.7827, 745.1332, 1e4]
 
 # ----------------------------------------------------------------------------- float64 references
@@ -129,7 +129,19 @@ def judge(case):
         return {"nontrivial": True, "outcome": "ok", "violations": viol, "n": int(xall.size)}
     # ---- rows
     L, op, dt, form = case["L"], case["op"], np.dtype(case["dtype"]).type, case["form"]
-    rows = np.array(list(itertools.product(GRID, repeat=L)), dtype=dt)
+    rows_all = np.array(list(itertools.product(GRID, repeat=L)), dtype=dt)
+    # the whole grid in one tensor, and the rows below each magnitude cap on their own: a kernel that picks its code path from the
+    # largest entry of the tensor it is handed (e.g. "no entry can overflow exp, skip the shift") must also be seen without larger rows
+    amax = np.abs(rows_all.astype(np.float64)).max(axis=1)
+    total = 0
+    for cap in (None, 1.5, 11.0, 45.0, 88.6, 105.0, 709.6, 746.0, 1.5e3):
+        rows = rows_all if cap is None else rows_all[amax < cap]
+        total += _judge_rows(case, rows, sg, F, v, viol, dt)
+        if viol: break
+    return {"nontrivial": True, "outcome": "ok", "violations": viol, "n": int(total)}
+
+def _judge_rows(case, rows, sg, F, v, viol, dt):
+    L, op, form = case["L"], case["op"], case["form"]
     s, ls = ref_rows(rows)
     tol = TOLF * np.maximum(1.0, np.abs(rows.astype(np.float64)).max(axis=1, keepdims=True))
     name = f"{op}:{form}"
@@ -169,7 +181,7 @@ def judge(case):
             y.backward(sg.Tensor(np.ones(y.shape, dtype=dt)))
             oh = np.zeros(rows.shape); oh[:, lab] = 1
             report(f"backward[label={lab}]", T.grad.data, s - oh, tol)
-    return {"nontrivial": True, "outcome": "ok", "violations": viol, "n": int(rows.shape[0])}
+    return int(rows.shape[0])
 
 def validate_refs_mpmath():
     """stable float64 closed forms vs 50-digit mpmath on the whole pair grid and a ladder of unary points"""
